@@ -1,6 +1,6 @@
 (** C15 — A trained model round-trips through write_model/read_model (PARTIAL). *)
 From Coq Require Import List.
-From Vib Require Import Proofs.TrainProofs.
+From Vib Require Import Proofs.TrainProofs Model.Base Model.Codec Model.DictImage Model.TrainImage Proofs.CodecProofs Proofs.ImageProofs Proofs.TrainImageProofs.
 
 (** The merged model kept inside [Model] is a cache of merge(raw model); every operation that
     changes the raw model (reading a user lexicon) or rebuilds the object (write/read) clears it.
@@ -23,6 +23,26 @@ Theorem c15_generate_twice : forall raw merged files (merge : raw -> merged) (em
   = snd (mstep raw merged files merge emit add_user s Generate).
 Proof. exact generate_twice. Qed.
 
+(** ** the model file itself: bincode(ModelData { config: TrainerConfig, raw_model }) -- our part of the codec
+    ([config_c]: feature extractor with its three id tables, next ids and parsed templates; the three rewriter
+    tries; the whole dictionary; the surfaces), composed from the combinators whose laws C05 / C09 use.
+    rucrf's raw model follows as opaque bytes.  [config_dom] bounds lengths by 2^64 and field values by their
+    integer widths (ids non-zero, enum tags in range). *)
+(** reading a written model returns the configuration itself and hands rucrf exactly the bytes rucrf wrote *)
+Theorem c15_model_read_write : forall cfg raw, config_dom cfg ->
+  read_model config_c (write_model config_c cfg raw) = Some (cfg, raw).
+Proof. exact model_read_write. Qed.
+(** a file cut anywhere inside the configuration is rejected *)
+Theorem c15_model_truncated : forall cfg p, config_dom cfg -> strict_prefix p (enc config_c cfg) -> read_model config_c p = None.
+Proof. exact model_truncated. Qed.
+(** writing what was read back reproduces the file *)
+Theorem c15_model_rewrite_same : forall cfg cfg' raw raw', config_dom cfg ->
+  read_model config_c (write_model config_c cfg raw) = Some (cfg', raw') -> write_model config_c cfg' raw' = write_model config_c cfg raw.
+Proof. exact model_rewrite_same. Qed.
+
 Print Assumptions c15_history_cache_ok.
 Print Assumptions c15_generate_reference.
 Print Assumptions c15_generate_twice.
+Print Assumptions c15_model_read_write.
+Print Assumptions c15_model_truncated.
+Print Assumptions c15_model_rewrite_same.
